@@ -3,6 +3,7 @@ import PlzVerif.Lemmas.LockRuns
 import PlzVerif.Lemmas.LockNext
 import PlzVerif.Model.LockFacts
 import PlzVerif.Lemmas.LockTest
+import PlzVerif.Lemmas.LockFrame
 /-!
 C31  Concurrent plz invocations on one repo do not corrupt outputs.
 
@@ -15,9 +16,14 @@ satisfies C01's history invariant (in particular the empty one, and whatever ear
 schedules.  The model is instantiated with the facts regenerated from /repo on this run (`generatedFacts` from
 needsBuilding/moveOutput, `generatedLFacts` from lock.go / buildTarget / please.go).
 
-Conditional, exactly like C01, on the two hash pre-image idealisations (`hR`, `hP` = the statements of C08/C09);
-`flock(2)` excluding and the atomicity of `rename(2)` are trusted; real schedules are sampled by the end-to-end
-harness (harness/cmd/c31), which also replays `C31_lock_needed`'s scenario shape on the real binary.
+Conditional, exactly like C01, on the two hash pre-image idealisations (`hR`, `hP` = the statements of C08/C09).
+Assumed and not proved: actions are deterministic functions of their declared inputs (`exec` is a function);
+sources and BUILD files do not change while the invocations run (`r` is fixed along a run); `flock(2)` excludes
+between open file descriptions and `rename(2)` is atomic.  Modelled, not verified: one output per target (an
+output tree is one value `C`), xattr mode (the stamp lives on the output file), the stamp computed at check time.
+Real schedules are sampled by the end-to-end harness (harness/cmd/c31), which also replays `C31_lock_needed`'s
+scenario shape on the real binary.  Facts that are recorded for the reader but enter no condition: `repoLockCalls`
+(who else takes the repo lock: only `plz update`, exclusively), `repoLockFile`, `buildDirSuffix`.
 -/
 namespace PlzVerif.Props.C31
 open PlzVerif.Build PlzVerif.Lock
@@ -31,7 +37,8 @@ theorem facts_parts : generatedFacts.cmpRule = true ∧ generatedFacts.cmpSource
     generatedLFacts.excl = true := by
   have h := C31_facts_ok
   simp only [LockFactsOK, Bool.and_eq_true] at h
-  exact ⟨h.1.1.1.1.1.1.1.1, h.1.1.1.1.1.1.1.2, h.1.1.1.1.1.1.2, h.1.1.1.2⟩
+  obtain ⟨⟨⟨⟨⟨⟨⟨⟨⟨a, b⟩, c⟩, _⟩, _⟩, e⟩, _⟩, _⟩, _⟩, _⟩ := h
+  exact ⟨a, b, c, e⟩
 
 section
 variable {P K A F N C S H : Type} [DecidableEq P] [DecidableEq K] [DecidableEq S] [DecidableEq N] [DecidableEq H]
@@ -134,6 +141,24 @@ theorem C31_final_eq_clean {s0 s : State P K C S N H} (sc : Scenario exec ruleSe
   intro p hp t ht hrq
   have hf := reach_left sc.init hr p (hterm p hp) t ht hrq
   exact C31_finished_eq_clean sc hr ht hf
+
+/-- Frame: "exactly the outputs of a clean build" also means nothing else is disturbed — a target no invocation was
+    asked for (directly or as a dependency) keeps its initial output and stamp, its tmp dir is not touched and its
+    action never runs; the same holds for every key that is not a target at all. -/
+theorem C31_unrequested_untouched {s0 s : State P K C S N H} (sc : Scenario exec ruleSer pathSer r req s0)
+    (hr : GReach exec ruleSer pathSer r ps req force s0 s) {t : Target K A F} (ht : t ∈ r.targets)
+    (hn : ∀ p ∈ ps, req p t.key = false) :
+    s.gen t.key = s0.gen t.key ∧ s.stamp t.key = s0.stamp t.key ∧ s.tmp t.key = s0.tmp t.key ∧ s.runs t.key = 0 := by
+  have hi := sc.inv (force := force) hr
+  have hidle : ∀ p, s.pc p t.key = .idle := by
+    intro p
+    apply Classical.byContradiction
+    intro hne
+    obtain ⟨hreq, hp, _⟩ := hi.active p t ht hne
+    rw [hn p hp] at hreq
+    exact absurd hreq (by simp)
+  obtain ⟨a, b, _, d, e⟩ := reach_untouched hr t.key hidle
+  exact ⟨a, b, d, by rw [e, sc.init.runs]⟩
 
 /-- No deadlock: as long as some invocation has not exited, some step is enabled (locks are taken one at a time
     and never nested; the repo lock is shared — or, if exclusive, its holder can always proceed). -/
@@ -279,6 +304,30 @@ theorem C31_nonvacuous_terminal :
     ∃ s, GReach execN id id repo procs reqAll noForce s0 s ∧ Terminal procs s ∧
       s.gen 0 = some 111 ∧ s.gen 1 = some 311 ∧ s.runs 0 = 1 ∧ s.runs 1 = 1 :=
   ⟨run generatedLFacts fullSched, runSched_reach _ _ .init, by decide⟩
+
+namespace Ex
+/-- process 1 runs with `--rebuild` on target 0 -/
+def forceP1 : Nat → Nat → Bool := fun p k => p == 1 && k == 0
+/-- process 0 builds everything and leaves; then process 1 enters, is FORCED to rebuild target 0 (acquire, check →
+    needs building, prepare, exec, store, moveOutput keeps the identical file, stamp, release) and finds target 1
+    up to date.  Enabled under either repo-lock mode. -/
+def rebuildSched : List (Act Nat) :=
+  [.enter 0] ++ List.replicate 9 (.work 0 0) ++ List.replicate 9 (.work 0 1) ++ [.leave 0] ++
+  [.enter 1] ++ List.replicate 9 (.work 1 0) ++ List.replicate 3 (.work 1 1) ++ [.leave 1]
+def runF (sched : List (Act Nat)) : State Nat Nat Nat Nat Nat Nat :=
+  runSched generatedFacts generatedLFacts execN id id repo procs reqAll forceP1 s0 sched
+end Ex
+
+open Ex in
+/-- The `--rebuild` branch is inhabited: the second entrant really re-executes the action (runs = 2), and the output
+    a finished process relies on is the very same value before and after (the case `C31_output_stable` is about). -/
+theorem C31_nonvacuous_rebuild :
+    ∃ s, GReach execN id id repo procs reqAll forceP1 s0 s ∧ Terminal procs s ∧
+      s.runs 0 = 2 ∧ s.runs 1 = 1 ∧ s.gen 0 = some 111 ∧ s.gen 1 = some 311 ∧
+      -- half way: process 1 is past moveOutput on target 0 (it kept the file) while process 0 has finished it
+      (runF (rebuildSched.take 27)).pc 1 0 = .moved (stampOf id id 100 [(1, 11)]) ∧
+      (runF (rebuildSched.take 27)).pc 0 0 = .finished ∧ (runF (rebuildSched.take 27)).gen 0 = some 111 :=
+  ⟨runF rebuildSched, runSched_reach _ _ .init, by decide⟩
 
 open Ex in
 /-- The lock is what makes it work: if the per-target lock did not exclude (`excl := false`, e.g. LOCK_SH, or taken
